@@ -1,11 +1,12 @@
 #!/bin/bash
 # tools/mutant.sh <seeded/ID-x> <check id> [tier]  : apply a seeded change to /repo, run the check, undo.
 d="$(cd "$1" && pwd)"; id="$2"; tier="${3:-quick}"
+REPO="${VERIF_REPO:-/repo}"   # tools/snap_matrix.sh points this at a scratch worktree
 cd "$(dirname "$0")/.." || exit 3
-if [ -n "$(git -C /repo status --porcelain --untracked-files=no)" ]; then echo "/repo not clean"; exit 3; fi
+if [ -n "$(git -C "$REPO" status --porcelain --untracked-files=no)" ]; then echo "$REPO not clean"; exit 3; fi
 [ -f "evidence/$id.json" ] && cp "evidence/$id.json" "run/evidence-$id.keep"
-trap 'git -C /repo checkout -- . ; git -C /repo clean -fdq -- . >/dev/null 2>&1; [ -f "run/evidence-$id.keep" ] && mv "run/evidence-$id.keep" "evidence/$id.json"; find replays -maxdepth 1 -name "$id-*" -type f -delete 2>/dev/null' EXIT
-git -C /repo apply "$d/patch.diff" || exit 3
+trap 'git -C "$REPO" checkout -- . ; git -C "$REPO" clean -fdq -- . >/dev/null 2>&1; [ -f "run/evidence-$id.keep" ] && mv "run/evidence-$id.keep" "evidence/$id.json"; find replays -maxdepth 1 -name "$id-*" -type f -delete 2>/dev/null' EXIT
+git -C "$REPO" apply "$d/patch.diff" || exit 3
 ./check "$id" "$tier"; rc=$?
 echo "mutant $(basename $d) check $id rc=$rc"
 exit $rc
